@@ -161,3 +161,5 @@ def run(rep, repo, tier):
     rep.floor('R-SSTR:bounds', 3)
     import c14_life
     c14_life.run_life(rep, repo, tier)
+    import c14_ident
+    c14_ident.run_ext(rep, repo, tier)
